@@ -68,7 +68,9 @@ class SearchSpec(G.Gram):
                 cnt = "".join(G.leaves(lst[2][0])) if lst[2] else ""
                 items = [c for c in lst[2] if c[0] == "N" and c[1] == "it_%d" % k]
                 try:
-                    if int(cnt) * getattr(self, "crep_per_iteration", {}).get(k, 1) != len(items):
+                    per = getattr(self, "crep_per_iteration", {}).get(k, 1)
+                    extra_ = getattr(self, "crep_range", {}).get(k, 0)
+                    if not (int(cnt) * per <= len(items) <= (int(cnt) + extra_) * per):
                         return False
                 except ValueError:
                     return False
@@ -87,6 +89,14 @@ def _nodes(model, name) -> list:
 
     walk(model)
     return out
+
+
+PAIR_TEMPLATES = [
+    ("<pr> == 'c+b' or <qa> == 'b'", ["pr", "qa"], lambda a, b: a == "c+b" or b == "b", "nested-eq"),
+    ("<pr> == 'a-b' and str(<qb>) == 'b'", ["pr", "qb"], lambda a, b: a == "a-b" and b == "b", "nested-eq"),
+    ("str(<qa>) == str(<qb>)", ["qa", "qb"], lambda a, b: a == b, "eq"),
+    ("<pr> == 'b+c' or <qb> == 'b' or <qa> == 'c'", ["pr", "qb", "qa"], lambda a, b, c: a == "b+c" or b == "b" or c == "c", "nested-eq"),
+]
 
 
 def _templates(ch, allow_raising: bool):
@@ -111,6 +121,9 @@ def _templates(ch, allow_raising: bool):
             ("int(<fe>) >= 0", ["fe"], lambda a: int(a) >= 0, "raising-cmp"),
             ("1 // int(<fz>) >= 0", ["fz"], lambda a: 1 // int(a) >= 0, "raising-cmp"),
             ("str(int(<fe>)) != 'x'", ["fe"], lambda a: str(int(a)) != "x", "raising-expr"),
+            ("str(int(<fe>)).isdigit()", ["fe"], lambda a: str(int(a)).isdigit(), "raising-plain-expr"),
+            ("int(<row>[2]) >= 0", ["row"], lambda a: int(a[2]) >= 0, "raising-index"),
+            ("int(<row>[0]) < 10", ["row"], lambda a: int(a[0]) < 10, "index"),
         ]
     return t
 
@@ -130,7 +143,7 @@ def gen_searchspec(ch, cfg: dict) -> SearchSpec:
     items = [("nt", "fa"), ("lit", ":"), ("nt", "fb"), ("lit", ":"), ("nt", "fc"), ("lit", ":"), ("star", ("cat", (("nt", "fd"), ("lit", ",")))), ("lit", "|")]
     if allow_raising:
         # several occurrences: a raising combination next to satisfied ones
-        items += [("rep", ("cat", (("nt", "fe"), ("lit", "."))), 1, 3), ("rep", ("cat", (("nt", "fz"), ("lit", "."))), 1, 3), ("lit", "|")]
+        items += [("rep", ("cat", (("nt", "fe"), ("lit", "."))), 1, 3), ("rep", ("cat", (("nt", "fz"), ("lit", "."))), 1, 3), ("nt", "row"), ("lit", "|")]
     for k in range(1, r + 1):
         items.append(("nt", "lst_%d" % k))
     n_gen = ch.weighted([5, 3, 2], "spec", "ngen") if cfg.get("generators", True) else 0
@@ -142,8 +155,17 @@ def gen_searchspec(ch, cfg: dict) -> SearchSpec:
     for k in range(1, n_dep + 1):
         items.append(("nt", "d_%d" % k))
         items.append(("lit", "_"))
+    with_pair = ch.coin(cfg.get("pair_rate", 0.4), "spec", "pair")
+    if with_pair:
+        items += [("lit", "|"), ("nt", "pr")]
     items += [("lit", "|"), ("nt", "body")]
     s.rules["start"] = ("cat", tuple(items))
+    if with_pair:
+        # nested repair targets: <qa>/<qb> live inside <pr>, whose two alternatives have different shapes
+        s.rules["pr"] = ("alt", (("cat", (("nt", "qa"), ("lit", "-"), ("nt", "qb"))), ("cat", (("nt", "qb"), ("lit", "+"), ("nt", "qa")))))
+        s.rules["qa"] = ("rx", r"[a-c]", "l")
+        s.rules["qb"] = ("rx", r"[a-c]", "l")
+    s.with_pair = with_pair
     s.rules["fa"] = ("rx", r"[0-9]{1,3}", "d")
     s.rules["fb"] = ("rx", r"[0-9]{1,3}", "d")
     s.rules["fc"] = ("rx", r"[a-d]+", "l")
@@ -151,6 +173,8 @@ def gen_searchspec(ch, cfg: dict) -> SearchSpec:
     if allow_raising:
         s.rules["fe"] = ("rx", r"[0-9a]", "e")
         s.rules["fz"] = ("rx", r"[0-9]", "d")
+        s.rules["row"] = ("rep", ("nt", "cell"), 1, 3)  # <row>[2] raises IndexError out of fitness() for short rows
+        s.rules["cell"] = ("rx", r"[0-9]", "d")
     for k in range(1, r + 1):
         form = ch.weighted([3, 2, 2], "spec", "crep-body")
         if form == 0:
@@ -161,7 +185,11 @@ def gen_searchspec(ch, cfg: dict) -> SearchSpec:
             body_ = ("cat", (("nt", "it_%d" % k), ("lit", "/")))  # group that ends in a terminal
         s.crep_per_iteration = getattr(s, "crep_per_iteration", {})
         s.crep_per_iteration[k] = 2 if form == 1 else 1
-        s.rules["lst_%d" % k] = ("cat", (("nt", "cnt_%d" % k), ("lit", "="), ("crep", body_, "int(<cnt_%d>)" % k), ("lit", ";")))
+        ranged = form == 0 and ch.coin(0.35, "spec", "crep-ranged")
+        s.crep_range = getattr(s, "crep_range", {})
+        s.crep_range[k] = 2 if ranged else 0
+        expr_ = "int(<cnt_%d>)" % k if not ranged else "int(<cnt_%d>), int(<cnt_%d>) + 2" % (k, k)
+        s.rules["lst_%d" % k] = ("cat", (("nt", "cnt_%d" % k), ("lit", "="), ("crep", body_, expr_), ("lit", ";")))
         s.rules["cnt_%d" % k] = ("rx", r"[1-3]", "c")
         s.rules["it_%d" % k] = ("rx", r"[a-d]", "l")
     for k in range(1, n_gen + 1):
@@ -188,6 +216,8 @@ def gen_searchspec(ch, cfg: dict) -> SearchSpec:
     # ---- constraints -----------------------------------------------------------------
     for _ in range(h):
         tpl = _templates(ch, allow_raising)
+        if s.with_pair and ch.coin(0.4, "spec", "pair-tpl"):
+            tpl = PAIR_TEMPLATES
         text, names, fn, kind = tpl[ch.draw(len(tpl), "spec", "tpl")]
         s.cons.append({"text": "where " + text, "names": names, "pred": (lambda m, names=names, fn=fn: _all(m, names, fn)), "kind": kind})
     order = ch.shuffle(list(range(len(s.cons))), "spec", "cons-order")
